@@ -77,6 +77,31 @@ pub const REPS: &[(&str, &str, &str)] = &[
     ("unknown-variable", "fn f0() -> i32 { v9 }\n", "(prog (fn 0 () i32 (blk () (var 9))))"),
     ("out-of-scope", "fn f0() -> i32 { if true { let v1 = 1; } v1 }\n",
      "(prog (fn 0 () i32 (blk ((do (if (bool) (blk ((let 1 _ (int _))))))) (var 1))))"),
+    // a name used where it is not in scope: one per way a scope ends
+    ("scope-let-after-block", "fn f0() -> i32 { ({ let v1 = 1; }); v1 }\n",
+     "(prog (fn 0 () i32 (blk ((do (block (blk ((let 1 _ (int _))))))) (var 1))))"),
+    ("scope-let-before-declaration", "fn f0() -> i32 { let v2 = v1; let v1 = 1; v2 }\n",
+     "(prog (fn 0 () i32 (blk ((let 2 _ (var 1)) (let 1 _ (int _))) (var 2))))"),
+    ("scope-let-of-then-in-else", "fn f0(v0: bool) -> i32 { if v0 { let v1 = 1; v1 } else { v1 } }\n",
+     "(prog (fn 0 ((0 bool)) i32 (blk () (if (var 0) (blk ((let 1 _ (int _))) (var 1)) (blk () (var 1))))))"),
+    ("scope-binder-after-match", "fn f0(v0: Option[i32]) -> i32 { match v0 { Some(v1) => { v1 } None => { 0 } }; v1 }\n",
+     "(prog (fn 0 ((0 (opt i32))) i32 (blk ((do (match (var 0) (arm (p some b 1) _ (blk () (var 1))) (arm (p none n) _ (blk () (int _)))))) (var 1))))"),
+    ("scope-binder-in-sibling-arm", "fn f0(v0: Option[i32]) -> i32 { match v0 { Some(v1) => { v1 } None => { v1 } } }\n",
+     "(prog (fn 0 ((0 (opt i32))) i32 (blk () (match (var 0) (arm (p some b 1) _ (blk () (var 1))) (arm (p none n) _ (blk () (var 1)))))))"),
+    ("scope-binder-in-guard-of-sibling-arm", "fn f0(v0: Option[bool]) -> i32 { match v0 { Some(v1) => { 1 } None if v1 => { 0 } None => { 2 } } }\n",
+     "(prog (fn 0 ((0 (opt bool))) i32 (blk () (match (var 0) (arm (p some b 1) _ (blk () (int _))) (arm (p none n) (var 1) (blk () (int _))) (arm (p none n) _ (blk () (int _)))))))"),
+    ("scope-parameter-of-another-function", "fn f1(v1: i32) -> i32 { v1 }\nfn f0() -> i32 { v1 }\n",
+     "(prog (fn 1 ((1 i32)) i32 (blk () (var 1))) (fn 0 () i32 (blk () (var 1))))"),
+    ("scope-local-of-another-function", "fn f1() -> i32 { let v1 = 1; v1 }\nfn f0() -> i32 { v1 }\n",
+     "(prog (fn 1 () i32 (blk ((let 1 _ (int _))) (var 1))) (fn 0 () i32 (blk () (var 1))))"),
+    ("scope-parameter-in-constant", "fn f1(v1: i32) -> i32 { v1 }\nconst C0: i32 = v1;\n",
+     "(prog (fn 1 ((1 i32)) i32 (blk () (var 1))) (const 0 i32 (var 1)))"),
+    ("scope-for-variable-after-loop", "fn f0(v0: List[i32]) -> i32 { for v1 in v0 { (); }; v1 }\n",
+     "(prog (fn 0 ((0 (list i32))) i32 (blk ((do (for 1 (var 0) (blk ((do (unitlit))))))) (var 1))))"),
+    ("scope-while-body-let-after-loop", "fn f0() -> i32 { while false { let v1 = 1; }; v1 }\n",
+     "(prog (fn 0 () i32 (blk ((do (while (bool) (blk ((let 1 _ (int _))))))) (var 1))))"),
+    ("scope-assign-after-block", "fn f0() { ({ let v1 = 1; }); v1 = 2; }\n",
+     "(prog (fn 0 () unit (blk ((do (block (blk ((let 1 _ (int _)))))) (do (set 0 1 () (int _)))))))"),
     ("constant", "const C0: i32 = 5;\nfn f0() -> i32 { C0 }\n", "(prog (const 0 i32 (int _)) (fn 0 () i32 (blk () (const 0))))"),
     ("constant-mismatch", "const C0: i32 = true;\n", "(prog (const 0 i32 (bool)))"),
     ("return-in-constant", "const C0: i32 = return 1;\n", "(prog (const 0 i32 (ret ret (int _))))"),
